@@ -302,6 +302,8 @@ func (r *Reconciler) commitChange(ctx context.Context, transaction *configapi.Tr
 			configuration.Committed.Values = make(map[string]configapi.PathValue)
 		}
 		for path, value := range transaction.Values {
+			// the values of a change carry its index (the configuration store only replaces a stored value whose index differs)
+			value.Index = transaction.ID.Index
 			configuration.Committed.Values[path] = value
 		}
 		if err := r.updateConfigurationStatus(ctx, configuration); err != nil {
@@ -420,6 +422,10 @@ func (r *Reconciler) applyChange(ctx context.Context, transaction *configapi.Tra
 		}
 
 		values := addDeleteChildren(transaction.ID.Index, transaction.Values, configuration.Committed.Values)
+		for path, value := range values {
+			value.Index = transaction.ID.Index
+			values[path] = value
+		}
 		if ok, err := r.applyValues(ctx, transaction, configuration, values); !ok {
 			return controller.Result{}, false, err
 		} else if err != nil {
